@@ -20,8 +20,8 @@ const (
 
 type vfZmPlan struct {
 	Upload bool   `json:"upload"`
-	Helper string `json:"helper"` // exit0, exit3, finish, never, late-write, missing, chooser-cancel
-	Server string `json:"server"` // finish, cancel-before, cancel-after, keeps-sending, quiet, header-with-cancel, header-with-cannot-open
+	Helper string `json:"helper"`    // exit0, exit3, finish, never, late-write, missing, chooser-cancel
+	Server string `json:"server"`    // finish, cancel-before, cancel-after, keeps-sending, quiet, header-with-cancel, header-with-cannot-open
 	CtrlC  int    `json:"ctrl_c_ms"` // 0 = none
 }
 
